@@ -310,76 +310,50 @@ theorem parseSndFmt_prefix (f : Format) (hf : f.Valid) (n : Nat) (hn : n < 32768
 
 /-! ### a whole resource with several sound commands -/
 
+theorem recsOf_encRec_length (items : List Item) (hv : ∀ i ∈ items, i.Valid) (off : Nat) :
+    ∀ r ∈ recsOf off items, (encRec r).length = 8 := by
+  induction items generalizing off with
+  | nil => intro r hr; cases hr
+  | cons i rest ih =>
+    have hrest := fun x hx => hv x (List.mem_cons_of_mem _ hx)
+    intro r hr
+    cases i with
+    | null ps =>
+      simp only [recsOf, List.mem_cons] at hr
+      rcases hr with rfl | hr
+      · have : ps.length = 6 := hv (.null ps) (List.mem_cons_self)
+        simp [encRec, be16, this]
+      · exact ih hrest off r hr
+    | sound p =>
+      simp only [recsOf, List.mem_cons] at hr
+      rcases hr with rfl | hr
+      · have : p.Valid := hv (.sound p) (List.mem_cons_self)
+        simp [encRec, be16, be32, this.1]
+      · exact ih hrest _ r hr
+
+theorem table_length (m : Multi) (hvi : ∀ i ∈ m.items, i.Valid) :
+    (((recsOf m.tableEnd m.items).map encRec).flatten).length = 8 * m.items.length := by
+  have hfl := flatten_length_const ((recsOf m.tableEnd m.items).map encRec) 8 (by
+    intro x hx
+    obtain ⟨r, hr, rfl⟩ := List.mem_map.mp hx
+    exact recsOf_encRec_length m.items hvi m.tableEnd r hr)
+  simpa [recsOf_length] using hfl
+
 theorem decode_encodeMulti (m : Multi) (hv : m.Valid) (c b : Nat) (hh : Homogeneous m c b) (hne : partsOf m.items ≠ []) :
     sndToSampled (encodeMulti m) = .ok (expectedMulti m c b) := by
   obtain ⟨hf, hn, hvi, hsize⟩ := hv
+  have hte : m.tableEnd = (encPrefix m.format).length + 2 + 8 * m.items.length := rfl
+  have htl := table_length m hvi
   -- the records are well-formed: every offset lies inside the resource
   have hT : m.tableEnd + (bodyOf m.items).length < 2 ^ 31 := by
     have hlen : (encodeMulti m).length = m.tableEnd + (bodyOf m.items).length + m.trailing.length := by
-      have hrv0 : ∀ r ∈ recsOf m.tableEnd m.items, (encRec r).length = 8 := by
-        intro r hr
-        -- lengths of records do not depend on the offset value
-        cases r with
-        | null ps =>
-          have : ∃ i ∈ m.items, i = .null ps := by
-            clear hsize hT
-            revert hr
-            generalize m.tableEnd = off
-            induction m.items generalizing off with
-            | nil => intro hr; cases hr
-            | cons i rest ih =>
-              intro hr
-              cases i with
-              | null ps' =>
-                simp only [recsOf, List.mem_cons] at hr
-                rcases hr with h | h
-                · cases h; exact ⟨_, List.mem_cons_self, rfl⟩
-                · obtain ⟨i, hi, he⟩ := ih off h; exact ⟨i, List.mem_cons_of_mem _ hi, he⟩
-              | sound p =>
-                simp only [recsOf, List.mem_cons] at hr
-                rcases hr with h | h
-                · cases h
-                · obtain ⟨i, hi, he⟩ := ih _ h; exact ⟨i, List.mem_cons_of_mem _ hi, he⟩
-          obtain ⟨i, hi, rfl⟩ := this
-          have : ps.length = 6 := hvi _ hi
-          simp [encRec, be16, this]
-        | sound sc p1 off' =>
-          have : ∃ p, Item.sound p ∈ m.items ∧ p.param1 = p1 := by
-            clear hsize hT
-            revert hr
-            generalize m.tableEnd = off
-            induction m.items generalizing off with
-            | nil => intro hr; cases hr
-            | cons i rest ih =>
-              intro hr
-              cases i with
-              | null ps' =>
-                simp only [recsOf, List.mem_cons] at hr
-                rcases hr with h | h
-                · cases h
-                · obtain ⟨p, hp, he⟩ := ih off h; exact ⟨p, List.mem_cons_of_mem _ hp, he⟩
-              | sound p =>
-                simp only [recsOf, List.mem_cons] at hr
-                rcases hr with h | h
-                · cases h; exact ⟨p, List.mem_cons_self, rfl⟩
-                · obtain ⟨q, hq, he⟩ := ih _ h; exact ⟨q, List.mem_cons_of_mem _ hq, he⟩
-          obtain ⟨p, hp, rfl⟩ := this
-          have : p.Valid := hvi _ hp
-          simp [encRec, be16, be32, this.1]
-      have hfl := flatten_length_const ((recsOf m.tableEnd m.items).map encRec) 8 (by
-        intro x hx
-        obtain ⟨r, hr, rfl⟩ := List.mem_map.mp hx
-        exact hrv0 r hr)
-      simp only [List.length_map, recsOf_length] at hfl
-      simp only [encodeMulti, List.length_append, hfl, Multi.tableEnd, be16, encOrd_length]
+      simp only [encodeMulti, List.length_append, htl, be16, encOrd_length]
       omega
     omega
   have hrv := recsOf_valid m.items hvi m.tableEnd hT
   -- the table parses back
   obtain ⟨cmds, hparse, hmatch⟩ := parseCmds_recs (recsOf m.tableEnd m.items) hrv (encPrefix m.format ++ be16 m.items.length)
     (bodyOf m.items ++ m.trailing)
-  have hpl : (encPrefix m.format ++ be16 m.items.length).length = m.tableEnd - 8 * m.items.length := by
-    simp [Multi.tableEnd, be16]
   rw [recsOf_length] at hparse
   have hd : encodeMulti m = encPrefix m.format ++ be16 m.items.length ++
       (((recsOf m.tableEnd m.items).map encRec).flatten ++ (bodyOf m.items ++ m.trailing)) := by
@@ -390,7 +364,7 @@ theorem decode_encodeMulti (m : Multi) (hv : m.Valid) (c b : Nat) (hh : Homogene
   rw [← hd] at hfm
   -- the commands run over the parts
   have hpre : (encPrefix m.format ++ be16 m.items.length ++ ((recsOf m.tableEnd m.items).map encRec).flatten).length = m.tableEnd := by
-    simp only [List.length_append, recs_flatten_length _ hrv, recsOf_length, Multi.tableEnd, be16, encOrd_length]
+    simp only [List.length_append, htl, be16, encOrd_length]; omega
   have hd2 : encodeMulti m = (encPrefix m.format ++ be16 m.items.length ++ ((recsOf m.tableEnd m.items).map encRec).flatten) ++
       (bodyOf m.items ++ m.trailing) := by
     simp [encodeMulti, List.append_assoc]
